@@ -32,11 +32,13 @@ echo "SEEDED $name: confirmed=$confirmed"
 dest=/verif/seeded/$name; mkdir -p "$dest"
 cp "$diff" "$dest/patch.diff"; cp "$demo" "$dest/$(basename "$demo")"
 results=""
+rm -rf "$dest/replays"
 for pr in $props; do
   o=$(KEEP_REPLAYS="$dest/replays" SKIP_SUITE=1 /verif/tools/mutant.sh "$diff" "$pr" "$tier" 2>&1)
   rc=$(echo "$o" | sed -n 's/.* exit=\([0-9]*\) .*/\1/p' | head -1)
   cls=$(echo "$o" | grep -m1 '^violation' | cut -c1-140)
   echo "SEEDED $name: check $pr $tier exit=$rc $cls"
+  echo "$o" | grep "MUTANT: replay" | sed "s/^MUTANT:/SEEDED $name:/"
   results="$results{\"check\":\"$pr\",\"tier\":\"$tier\",\"exit\":${rc:-null},\"first\":$(python3 -c 'import json,sys;print(json.dumps(sys.argv[1]))' "$cls")},"
 done
 python3 - "$meta" "$dest/meta.json" "$confirmed" "$r_without" "$r_suite" "$r_with" "[${results%,}]" "$race" <<'PY'
